@@ -93,29 +93,54 @@ def run(ctx):
                coq_pn, HEADER, "chk_norm", judge=judge_pn, configs=("pure",), nontrivial=nt)
 
     # ---- support: bezier_roots returns all roots (prescribed roots), LAPACK not modelled
-    import random as _r
     cases = []
-    for _ in range(20 if ctx.quick() else 300):
-        deg = rng.randint(1, 8)
-        roots = sorted(F(rng.randint(-8, 16), 8) for _ in range(deg))
-        if len(set(roots)) < len(roots):
+    for _ in range(40 if ctx.quick() else 600):
+        nreal = rng.randint(0, 5)
+        ncplx = rng.randint(0, 2)
+        if nreal + 2 * ncplx == 0:
             continue
+        roots = [(F(rng.choice([-8, -3, 0, 2, 4, 5, 7, 8, 8, 12, 16]), 8), F(0)) for _ in range(nreal)]     # real roots, 1 over-represented
+        for _k in range(ncplx):
+            re_, im_ = F(rng.choice([-2, 0, 1, 2, 2, 3, 4]), 2), F(rng.choice([1, 2, 4]), 2)                 # a +- ib on a lattice (real part 1 included)
+            roots += [(re_, im_), (re_, -im_)]
+        repeated = len(set(roots)) < len(roots)
+        if repeated and (rng.random() < 0.5 or max(roots.count(r) for r in roots) > 2):
+            continue
+        # exact real power-basis coefficients: product of (x - r) and (x^2 - 2 re x + re^2 + im^2)
         p = [F(1)]
-        for r in roots:
-            p = oq.poly_mul(p, [-r, F(1)])
+        for (re_, im_) in roots:
+            if im_ == 0:
+                p = oq.poly_mul(p, [-re_, F(1)])
+            elif im_ > 0:
+                p = oq.poly_mul(p, [re_ * re_ + im_ * im_, -2 * re_, F(1)])
+        deg = len(p) - 1
         bern = oq.from_power(p, deg)
+        elevated = 0
         if rng.random() < 0.3:
-            bern = oq.elevate(bern)
+            elevated = rng.randint(1, 2)
+            for _k in range(elevated):
+                bern = oq.elevate(bern)
+        # scaling does not move roots: clear denominators so that the coefficients are exact integers in binary64
+        from math import lcm
+        m = lcm(*[x.denominator for x in bern])
+        bern = [x * m for x in bern]
         if all(F(float(x)) == x for x in bern):
-            cases.append({"bern": bern, "roots": roots})
+            cases.append({"bern": bern, "roots": roots, "repeated": repeated, "elevated": elevated})
 
     def judge_roots(c, op, cfg, raw):
         if "exc" in raw:
             return "raised %s: %s" % (raw["exc"], raw.get("msg"))
-        got = sorted(float.fromhex(z[0]) for z in raw["ok"] if abs(float.fromhex(z[1])) < 1e-6)
-        want = [float(r) for r in c["roots"]]
-        if len(got) != len(want) or any(abs(g - w) > 1e-6 * max(1, abs(w)) for g, w in zip(got, want)):
-            return "roots %s, prescribed %s" % (got, want)
+        got = [complex(float.fromhex(z[0]), float.fromhex(z[1])) for z in raw["ok"]]
+        want = [complex(float(a_), float(b_)) for a_, b_ in c["roots"]]
+        tol = 1e-4 if c["repeated"] else 1e-7
+        if len(got) != len(want):
+            return "%d roots returned, %d prescribed (with multiplicity): got %s, prescribed %s" % (len(got), len(want), got, want)
+        rest = list(got)
+        for w in want:
+            g = min(rest, key=lambda z: abs(z - w))
+            if abs(g - w) > tol * max(1.0, abs(w)):
+                return "prescribed root %s not returned (closest %s): got %s" % (w, g, got)
+            rest.remove(g)
         return None
     sweep(ctx, "bezier_roots_prescribed", cases, [("hazmat.alg_bezier_roots", lambda c: [enc_vec(c["bern"])])], judge_roots, configs=("pure",))
     return finish(ctx, "PROVED (functions regenerated from algebraic_intersection.py): the implicit function of degree 1 and 2 vanishes on "
